@@ -344,6 +344,8 @@ def judge_files(ctx, recs):
                 continue
             if blank_single and not has_cr and not has_hash:
                 continue        # a one-column table, not a shape blob_to_csv produces: excluded (assumption)
+            if lead_bom and not r['bodies'] and not has_cr and not has_hash:
+                continue        # a text that starts with U+FEFF: excluded by well_shaped (assumption); blob_to_csv's files start with '#'
             ctx.violation(f'{r["kind"]}: pd.read_csv(comment="#") loses fields: {r["user"]!r} for {rows!r}',
                           dict(rec, **{'class': cls}))
 
